@@ -254,9 +254,15 @@ fn conn_level(cfg: &RunCfg) -> Outcome {
             0 => 0,
             _ => gen::below(n as u32 + 1) as u64,
         };
-        let wk = gen::write_error_kind();
-        with(|w| w.net.conns[id].fail_write_at = Some((k, wk)));
-        fault_desc = format!("socket write error after {k} bytes");
+        // (one in eight is EINTR-like: reported once, then the socket works again; the oracle
+        // below already accepts both giving up and a correct retry)
+        let transient = gen::ratio(1, 8);
+        let wk = if transient { ErrorKind::Interrupted } else { gen::write_error_kind() };
+        with(|w| {
+            w.net.conns[id].fail_write_at = Some((k, wk));
+            w.net.conns[id].write_fault_transient = transient;
+        });
+        fault_desc = format!("socket write error ({wk:?}{}) after {k} bytes", if transient { ", transient" } else { "" });
         build(&spec, &dir, "f")
     } else {
         let f = gen_body_fault(len);
